@@ -79,7 +79,10 @@ def handleFit (args : List String) : Verdict :=
     let knots ← many (do let x ← rat; let y ← rat; pure (x, y)) nk
     let fmn ← rat; let fmx ← rat; let fst ← rat
     let omn ← rat; let omx ← rat; let ost ← rat
-    let bar ← tok
+    let bar0 ← tok
+    -- optional boundary token (`nat` / `dz`) before the bar
+    let bc := if bar0 == "|" then "nat" else bar0
+    let bar ← (if bar0 == "|" then pure "|" else tok)
     if bar != "|" then failure else
     let status ← tok
     let no ← nat
@@ -89,8 +92,8 @@ def handleFit (args : List String) : Verdict :=
     if g.length != nk || !((g.zip (knots.map (·.1))).all fun (a, b) => absRat (a - b) ≤ 1 / 10 ^ 9) then
       pure { agree := false, msg := "fit grid of the harness is not Spline::GenerateGrid", tag := "resfit-bad-grid" } else
     if status != "ok" then pure { agree := false, propOk := false, msg := "RESAMPLE-FIT csg_resample --fitgrid failed on data from the spline space", tag := "resfit" } else
-    match C06F.naturalF2 g (knots.map (·.2)) with
-    | none => pure { agree := false, msg := "natural spline system singular", tag := "resfit" }
+    match (if bc == "dz" then C06F.clampedF2 g (knots.map (·.2)) else C06F.naturalF2 g (knots.map (·.2))) with
+    | none => pure { agree := false, msg := "spline system singular", tag := "resfit" }
     | some f2 =>
       let grid := outGrid omn omx ost
       let sc := (knots.map (·.2)).foldl (fun m y => if m < absRat y then absRat y else m) 1
@@ -98,7 +101,7 @@ def handleFit (args : List String) : Verdict :=
         ((grid.zip out).zipIdx.find? fun ((x, (x', y', _)), _) =>
           !(absRat (x - x') ≤ 1 / 10 ^ 9 && absRat (C12.cubicCalc g (knots.map (·.2)) f2 x - y') ≤ sc / 10 ^ 6)).map fun ((x, (_, y', _)), i) =>
             s!"row {i} (x = {showR x}): fitted value {showR y'}, the generating spline has {showR (C12.cubicCalc g (knots.map (·.2)) f2 x)}"
-      pure { agree := bad.isNone, propOk := bad.isNone, tag := s!"resfit-{nk}knots-{if ost < fst then "finer" else "same"}",
+      pure { agree := bad.isNone, propOk := bad.isNone, tag := s!"resfit-{bc}-{nk}knots-{if ost < fst then "finer" else "same"}",
              msg := "RESAMPLE-FIT the fit does not reproduce a function of the spline space: " ++ bad.getD "" }
   match p.run args with
   | some (v, []) => v
